@@ -344,6 +344,23 @@ EinsumLaws ==
             OnnxEinsum(<<x>>, <<<<1, 1>>>>, <<>>) = OnnxReduce("ReduceSum", OnnxMul(x, Eye(x.shape[1])), <<0, 1>>, FALSE)   \* trace "ii->"
   /\ r = 1 => /\ OnnxEinsum(<<x, x>>, <<<<1>>, <<1>>>>, <<>>) = OnnxMatMul(x, x)               \* "i,i->"
               /\ OnnxEinsum(<<x, x>>, <<<<1>>, <<2>>>>, <<1, 2>>) = OnnxMatMul(OnnxUnsqueeze(x, <<1>>), OnnxUnsqueeze(x, <<0>>))  \* outer product
+SequenceLaws ==
+  LET sq == <<x, OnnxNeg(x)>> t == OnnxAbs(x) IN
+  /\ \A p \in 0..2 :
+       /\ OnnxSequenceAt(OnnxSequenceInsert(sq, t, p), p) = t
+       /\ OnnxSequenceErase(OnnxSequenceInsert(sq, t, p), p) = sq
+       /\ Len(OnnxSequenceInsert(sq, t, p)) = 3
+  /\ OnnxSequenceInsert(sq, t, -2) = OnnxSequenceInsert(sq, t, 0)       \* Python list.insert positions
+  /\ OnnxSequenceInsert(sq, t, -1) = <<x, t, OnnxNeg(x)>>
+  /\ OnnxSequenceAt(sq, -1) = OnnxNeg(x) /\ OnnxSequenceAt(sq, -2) = x
+  /\ OnnxSequenceErase(sq, -1) = <<x>> /\ OnnxSequenceLength(sq).data = <<2>>
+  /\ \A a \in Axes : x.shape[a + 1] > 0 =>
+       /\ OnnxConcatFromSequence(OnnxSplitToSequenceOnes(x, a, TRUE), a, FALSE) = x
+       /\ OnnxConcatFromSequence(OnnxSplitToSequenceOnes(x, a, FALSE), a, TRUE) = x
+       /\ OnnxConcatFromSequence(OnnxSplit(x, a, ChunkSizes(x.shape[a + 1], 2)), a, FALSE) = x
+  /\ \A a \in 0..r : /\ OnnxConcatFromSequence(<<x>>, a, TRUE) = OnnxUnsqueeze(x, <<a>>)
+                     /\ OnnxConcatFromSequence(<<x, x>>, a - (r + 1), TRUE) = OnnxConcatFromSequence(<<x, x>>, a, TRUE)
+  /\ ChunkSizes(5, 2) = <<2, 2, 1>> /\ ChunkSizes(4, 2) = <<2, 2>> /\ ChunkSizes(0, 2) = <<>>
 ASSUME NearestSpotChecks ==
   /\ NearestIndex("round_prefer_floor", [p |-> 1, q |-> 2], 9) = 0 /\ NearestIndex("round_prefer_ceil", [p |-> 1, q |-> 2], 9) = 1
   /\ NearestIndex("round_prefer_floor", [p |-> 3, q |-> 4], 9) = 1 /\ NearestIndex("round_prefer_ceil", [p |-> 1, q |-> 4], 9) = 0
